@@ -23,7 +23,7 @@ for pid in ALL:
         "thorough_cmd": "./check %s thorough" % pid,
         "evidence_file": "/verif/evidence/%s.json" % pid,
         "replay_cmd_template": "./check %s --replay {path}" % pid,
-        "engine": "proptest-runner" + (" + cargo-fuzz/libFuzzer (thorough tier)" if pid in ("C03", "C10", "C14") else ""),
+        "engine": "proptest-runner" + (" + cargo-fuzz/libFuzzer (thorough tier)" if pid in ("C03", "C10", "C14", "C16") else ""),
         "level_claimed": {"category": "exploration", "text": text, "design_ref": "DESIGN.md §4 %s" % pid},
         "level_note": note,
         "technique": technique,
@@ -41,12 +41,12 @@ manifest = {
     "engines": [
         {"name": "proptest-runner", "path": "/verif/harness", "serves_properties": sorted(BUILT),
          "kind_free_text": "property-based testing: proptest 1.11 strategies and shrinking driven by a job runner (one TestRunner per sub-check x configuration, seeded from VERIF_SEED), explicit oracles = independent reference integer / float / formatter / parser models, primitive integers, differential between digit types; exhaustive enumeration of the 8-bit configurations"},
-        {"name": "cargo-fuzz/libFuzzer", "path": "/verif/harness/fuzz", "serves_properties": ["C03", "C10", "C14"],
-         "kind_free_text": "coverage-guided fuzzing (cargo +nightly fuzz, libFuzzer, ASan) of three targets that decode bytes into (configuration, operands / radix + string / float bits) and apply the same oracle as the proptest check inside the target; thorough tier only, bounded by -runs"},
+        {"name": "cargo-fuzz/libFuzzer", "path": "/verif/harness/fuzz", "serves_properties": ["C03", "C10", "C14", "C16"],
+         "kind_free_text": "coverage-guided fuzzing (cargo +nightly fuzz, libFuzzer, ASan) of four targets: three decode bytes into (configuration, operands / radix + string / float bits) and apply the same oracle as the proptest check inside the target; the fourth (fuzz_prog, C16) is stateful and model-based - it interprets the input as a register-machine program of up to 64 operations and compares, after every instruction, bnum in every digit type of the width with a model on the reference integer; thorough tier only, bounded by -runs"},
     ],
     "checks": checks,
     "not_applicable": [{"property_id": p, "reason": NOT_APPLICABLE.get(p, "check not built yet in this round (planned in DESIGN.md §4); not claimed until it exists")} for p in ALL if p not in BUILT],
-    "notes": "Exit codes of every command: 0 held, 1 VIOLATION line printed, 2 undecided (harness could not build against the edited tree, watchdog, reference-model self-test failed, fuzz engine failure). known_findings.json lists five repaired defects (status fixed, each a 'fix:' commit in /repo) and no open finding, so no KNOWN-FINDING line is ever printed at present. Quick tier: dbg profile (both profiles for C04 and C17), seconds per property after a 10-60 s incremental rebuild; thorough tier: 20x the case counts in both profiles plus libFuzzer campaigns for C03/C10/C14. VERIF_SEED, VERIF_TIER, VERIF_SCALE (case-count multiplier), VERIF_FUZZ_RUNS are honoured. seeded/RESULTS.md lists 50+ independently written breaking changes and which check reports each.",
+    "notes": "Exit codes of every command: 0 held, 1 VIOLATION line printed, 2 undecided (harness could not build against the edited tree, watchdog, reference-model self-test failed, fuzz engine failure). known_findings.json lists five repaired defects (status fixed, each a 'fix:' commit in /repo) and no open finding, so no KNOWN-FINDING line is ever printed at present. Quick tier: dbg profile (both profiles for C04 and C17), seconds per property after a 10-60 s incremental rebuild; thorough tier: 20x the case counts in both profiles plus libFuzzer campaigns for C03/C10/C14/C16. VERIF_SEED, VERIF_TIER, VERIF_SCALE (case-count multiplier), VERIF_FUZZ_RUNS are honoured. seeded/RESULTS.md lists 200+ independently written breaking changes and which check reports each.",
 }
 json.dump(manifest, open(os.path.join(HERE, "MANIFEST.json"), "w"), indent=1)
 print("checks:", len(checks), "not_applicable:", len(manifest["not_applicable"]))
